@@ -426,6 +426,22 @@ fn strings_block() -> (VioSink, u64) {
 			v.push(format!("{k}-0"));
 			v.push(format!("{k}-"));
 		}
+		// multi-byte characters at every byte offset of a name / number (fixed-size buffers, byte slicing)
+		for ch in ["é", "ß", "€", "🙂", "\u{301}"] {
+			for pos in 0..=17usize {
+				for tail in ["-5", "-", "", "5"] {
+					v.push(format!("{}{ch}{}{tail}", "a".repeat(pos), "b".repeat(17usize.saturating_sub(pos) % 4)));
+				}
+			}
+			for k in ["sma", "linreg", "volumed_price", "close"] {
+				for cut in 0..=k.len() {
+					v.push(format!("{}{ch}{}-5", &k[..cut], &k[cut..]));
+					v.push(format!("{k}-{}{ch}{}", &"12"[..cut.min(2)], &"12"[cut.min(2)..]));
+				}
+			}
+		}
+		v.sort();
+		v.dedup();
 		v
 	};
 	for s in &texts {
